@@ -81,7 +81,7 @@ def attr_lines(derives, shape):
     grouping chosen by `shape` (an int), other attributes before / between / after, serde:: path spelling."""
     ds = list(derives)
     if not ds:
-        return [NOISE_ATTRS[shape % len(NOISE_ATTRS)]] if shape % 2 else []
+        return ([NOISE_ATTRS[shape % len(NOISE_ATTRS)]] if shape % 2 else []), []
     if shape % 7 == 3:
         ds = [("serde::" + d) if d in ("Serialize", "Deserialize") else d for d in ds]
     k = shape % 5
@@ -191,6 +191,8 @@ def build(spec):
                 tj = P(types[j]["name"])
                 if how == "param":
                     params.append({"name": "arg%d" % n, "ty": CONTEXTS[ctx](tj)})
+                elif how == "named_param":         # a parameter that binds the identifier c["var"]
+                    params.append({"name": c.get("var", "payload"), "ty": CONTEXTS[ctx](tj)})
                 elif how == "ret":
                     ret = CONTEXTS[ctx](tj)
                 elif how == "err":
@@ -434,6 +436,26 @@ def random_spec(rng, clean=True, acyclic=None, max_types=8, events=True):
         helpers.append({"name": rng.choice(HELPER_NAMES), "file": rng.randrange(nfiles), "roots": roots})
     if not any(c["roots"] for c in cmds):
         cmds[0]["roots"].append(["param", 0, "direct"])
+    raw_items = []
+    for t in types:                                   # attribute shapes of type items
+        if t["kind"] != "tuple" and rng.random() < 0.5:
+            t["attr_shape"] = rng.randrange(60)
+    if events and rng.random() < 0.25:
+        # an emit whose payload is an untyped local, in a file whose earlier helper binds the same identifier to an
+        # otherwise unreachable serde type (with a child of its own): neither may be declared
+        v = rng.choice(["payload", "record", "entry", "msg"])
+        c = rng.choice(cmds)
+        c["roots"].append(["event", 0, "untyped"])
+        c["var"] = v
+        types.append({"name": "AuditRecord", "kind": "struct", "derives": ["Serialize", "Deserialize"], "file": rng.randrange(nfiles)})
+        types.append({"name": "AuditMeta", "kind": "struct", "derives": ["Serialize"], "file": rng.randrange(nfiles)})
+        edges.append([len(types) - 2, len(types) - 1, rng.choice(CLEAN_FIELD[:6])])
+        helpers.append({"name": "write_audit", "file": c["file"], "first": True, "var": v,
+                        "roots": [["named_param", len(types) - 2, rng.choice(["ref", "direct"])]]})
+        raw_items.append([c["file"], "pub type AuditAlias = AuditRecord;"])
+        raw_items.append([rng.randrange(nfiles), "pub struct Sink;\nimpl Sink {\n    pub fn push(&self, %s: AuditRecord) -> AuditMeta { todo!() }\n}" % v])
+    if "unreachable" in decoy_roles and rng.random() < 0.4:
+        raw_items.append([rng.randrange(nfiles), "pub type HiddenList = Vec<Hidden>;\npub const HIDDEN_LIMIT: usize = 3;"])
     if not clean and rng.random() < 0.08:
         k = rng.randrange(n)
         types[k]["name"] = types[k]["name"].lower()          # odd name: lower-case initial
@@ -445,7 +467,7 @@ def random_spec(rng, clean=True, acyclic=None, max_types=8, events=True):
         any(r[2] == "result_alias" for c in cmds for r in c["roots"])
     return {"types": types, "edges": edges, "cmds": cmds, "helpers": helpers, "nfiles": nfiles, "alias": alias,
             "shape": shape, "acyclic": acyclic, "clean": clean, "decoys": decoy_roles, "naming": naming,
-            "field_names": field_names}
+            "field_names": field_names, "raw_items": raw_items}
 
 
 def dag_shapes(n):
@@ -506,4 +528,54 @@ def crossfile_specs(rng):
             cmds, helpers = ([fn, other], []) if where == "cmd" else ([other], [fn])
             specs.append({"types": types, "edges": edges, "cmds": cmds, "helpers": helpers, "nfiles": nfiles, "alias": False,
                           "shape": "crossfile", "acyclic": True, "clean": True, "naming": "plain"})
+    return specs
+
+
+SD2 = ["Serialize", "Deserialize"]
+
+
+def shape_specs(rng):
+    """attribute shapes of type items and untyped event payloads, one feature per project:
+    chain A -> B -> C with the shape on A / B / C; a non-serde type with split derives mentioned by A stays out"""
+    specs = []
+    for shape in range(60):
+        derives = [SD2, ["Debug", "Clone", "Serialize", "Deserialize"], ["Serialize"], ["Debug", "Deserialize"]][shape % 4]
+        pool = rng.sample(TYPE_NAMES, 4)
+        types = [{"name": pool[i], "kind": "enum" if (i == 2 and shape % 3 == 0) else "struct", "derives": list(SD2), "file": i % 2}
+                 for i in range(3)]
+        k = shape % 3
+        types[k]["derives"] = list(derives)
+        types[k]["attr_shape"] = shape
+        types.append({"name": pool[3], "kind": "struct", "derives": ["Debug", "Clone", "Default"], "file": 1, "attr_shape": shape})
+        edges = [[0, 1, "vec"], [1, 2, "option"], [0, 3, "direct"]]
+        specs.append({"types": types, "edges": edges, "cmds": [{"name": "use_it", "file": 0, "roots": [["param", 0, "direct"]]}],
+                      "helpers": [], "nfiles": 2, "alias": False, "shape": "attrs", "acyclic": True, "clean": True, "naming": "plain"})
+    for k, v in enumerate(["payload", "record", "entry", "data", "payload", "msg"]):
+        pool = rng.sample(TYPE_NAMES, 3)
+        types = [{"name": pool[0], "kind": "struct", "derives": list(SD2), "file": 0},
+                 {"name": pool[1], "kind": "struct", "derives": list(SD2), "file": k % 2},       # decoy bound by the helper
+                 {"name": pool[2], "kind": "struct", "derives": ["Serialize"], "file": 1}]      # its child
+        cmd = {"name": "increment", "file": 0, "var": v, "roots": [["param", 0, "direct"], ["event", 0, "untyped"]]}
+        helper = {"name": "write_audit", "file": 0, "first": True, "var": v, "roots": [["named_param", 1, ["ref", "direct"][k % 2]]]}
+        raw = [[0, "pub type Alias%d = %s;" % (k, pool[1])], [1, "pub struct Sink;\nimpl Sink { pub fn push(&self, %s: %s) {} }" % (v, pool[1])]]
+        specs.append({"types": types, "edges": [[1, 2, "vec"]], "cmds": [cmd], "helpers": [helper], "nfiles": 2, "alias": False,
+                      "shape": "untyped-payload", "acyclic": True, "clean": True, "naming": "plain", "raw_items": raw})
+    return specs
+
+
+def deep_specs():
+    """beyond the small-scope bound: a chain of 200 types, a ladder of 150 (i -> i+1, i -> i+2), a fan of 200 fields;
+    names N0..Nk overlap as substrings (N1 / N10 / N100)"""
+    specs = []
+    ctxs = CLEAN_FIELD[:8]
+    for shape, n in (("chain", 200), ("ladder", 150), ("fan", 200)):
+        types = [{"name": "N%d" % i, "kind": "struct", "derives": list(SD2), "file": i % 3} for i in range(n)]
+        if shape == "chain":
+            edges = [[i, i + 1, ctxs[i % len(ctxs)]] for i in range(n - 1)]
+        elif shape == "ladder":
+            edges = [[i, i + 1, ctxs[i % len(ctxs)]] for i in range(n - 1)] + [[i, i + 2, ctxs[(i + 3) % len(ctxs)]] for i in range(n - 2)]
+        else:
+            edges = [[0, i, ctxs[i % len(ctxs)]] for i in range(1, n)]
+        specs.append({"types": types, "edges": edges, "cmds": [{"name": "run_it", "file": 0, "roots": [["param", 0, "direct"]]}],
+                      "helpers": [], "nfiles": 3, "alias": False, "shape": "deep-" + shape, "acyclic": True, "clean": True, "naming": "digits"})
     return specs
